@@ -98,12 +98,15 @@ def to_smt2(axioms, pc, goal):
     return s.to_smt2()
 
 
-def _run_z3(text, timeout_ms):
+def _run_z3(text, timeout_ms, seed=0):
     ctx = z3.Context()
     s = z3.Solver(ctx=ctx)
     s.set("timeout", timeout_ms)
     s.set("auto_config", False)
     s.set("smt.mbqi", False)
+    if seed:
+        s.set("smt.random_seed", seed)
+        s.set("sat.random_seed", seed)
     try:
         s.from_string(text)
     except z3.Z3Exception as e:
@@ -136,6 +139,10 @@ def _work(job):
     idx, text_lite, text, z3_ms, cvc5_s = job
     verdict, dt = _run_z3(text_lite, max(2000, z3_ms // 3))
     backend = "z3"
+    if verdict != "unsat":
+        # E-matching proofs are sensitive to instantiation order: a different seed is a cheap second opinion
+        verdict, dt1 = _run_z3(text_lite, max(2000, z3_ms // 3), seed=7)
+        dt += dt1
     if verdict != "unsat":
         verdict, dt1 = _run_z3(text, z3_ms)
         dt += dt1
